@@ -94,6 +94,8 @@ func (m *BaseUndoLogManager) InsertUndoLog(record undo.UndologRecord, conn drive
 	if err != nil {
 		return err
 	}
+	// one server-side prepared statement per branch stayed allocated on the business connection otherwise
+	defer stmt.Close()
 	_, err = stmt.Exec([]driver.Value{record.BranchID, record.XID, record.Context, record.RollbackInfo, int64(record.LogStatus)})
 	if err != nil {
 		return err
